@@ -154,14 +154,19 @@ def update_pinning(ctx: Ctx, rule: str) -> None:
     fn = ctx.repo.func(UPD)
     ctx.touch(UPD)
     wl = the_loop(ctx, UPD, ast.For, lambda l: ast.unparse(l.iter) == "graph.workers.values()", "worker loop of update")
+    from ..facts import dict_writes
+
     stores = {}
     for s in ast.walk(wl):
-        if isinstance(s, ast.Assign) and ast.unparse(s.targets[0]).startswith("setup_dict"):
-            stores[ast.unparse(s.targets[0])] = ast.unparse(s.value)
-    ups = [c for c in calls_in(wl) if call_name(c) == "update" and ast.unparse(c.func.value) == "setup_dict"]
-    modes = ast.unparse(ups[0].args[0]) if len(ups) == 1 else None
-    ok = (stores.get("setup_dict") == "config['param_dict'].copy()" and stores.get("setup_dict['main_vm']") == "vm_name" and stores.get("setup_dict['vms']") == "vm_name"
-          and stores.get("setup_dict['nets']") == "worker.id" and modes == "{'get_mode': 'ra', 'set_mode': 'ff', 'unset_mode': 'fi'}")
+        if isinstance(s, ast.Assign) and ast.unparse(s.targets[0]) == "setup_dict":
+            stores["setup_dict"] = ast.unparse(s.value)
+    written = {}
+    for k, v, _ in dict_writes(wl, "setup_dict"):
+        written.setdefault(ast.unparse(k) if k is not None else "*", set()).add(ast.unparse(v))
+    modes = {k: sorted(v) for k, v in written.items()}
+    ok = (stores.get("setup_dict") == "config['param_dict'].copy()"
+          and all(written.get(k) == v for k, v in {"'main_vm'": {"vm_name"}, "'vms'": {"vm_name"}, "'nets'": {"worker.id"}, "'get_mode'": {"'ra'"}, "'set_mode'": {"'ff'"},
+                                                    "'unset_mode'": {"'fi'"}}.items()) and "*" not in written)
     ctx.record(rule, "PROV", UPD, "every parse of the update tool: vms = main_vm = the current vm, nets = the current worker, modes ra/ff/fi", ok, {"stores": stores, "modes": modes},
                "" if ok else "the update of one vm is no longer isolated from other vms/workers or no longer forces the overwrite modes")
     parses = [c for c in calls_in(wl) if call_name(c) == "parse_object_trees"]
